@@ -59,6 +59,33 @@ def generate(loader):
         g6 = g2.origin(o)
         if not trlib.same_tensor(g6._center.a, g1._center.a):
             raise TraceError("origin(o) accessor differs from the constructor route")
+        # header routes: Grid.from_sitk(image) / Grid.from_reader(reader) with a stand-in header object whose
+        # accessors return the symbolic attributes in SimpleITK's form (tuples, flat row-major direction) must be
+        # exactly the constructor route, for both align_corners flags
+        class _Header:
+            def GetSize(self_):
+                return tuple(n.a.tolist())
+
+            def GetOrigin(self_):
+                return tuple(o.a.tolist())
+
+            def GetSpacing(self_):
+                return tuple(s.a.tolist())
+
+            def GetDirection(self_):
+                return tuple(d.a.reshape(-1).tolist())
+        for ac in (True, False):
+            with _unit_det():
+                gh = [("from_sitk", Grid.from_sitk(_Header(), align_corners=ac)), ("from_reader", Grid.from_reader(_Header(), align_corners=ac)),
+                      ("Grid(...)", Grid(size=n, origin=o, spacing=s, direction=d, align_corners=ac))]
+            for nm, g in gh:
+                if not (trlib.same_tensor(g._size.a, n.a) and trlib.same_tensor(g._spacing.a, s.a)
+                        and trlib.same_tensor(g._direction.a, d.a) and trlib.same_tensor(g._center.a, g1._center.a)):
+                    raise TraceError(f"Grid.{nm}(align_corners={ac}) does not store the attributes of Grid(size, origin, spacing, direction)")
+                if g.align_corners() is not ac:
+                    raise TraceError(f"Grid.{nm}(align_corners={ac}) does not keep the flag")
+                if not trlib.same_tensor(g.origin().a, g1.origin().a):
+                    raise TraceError(f"Grid.{nm}(align_corners={ac}).origin() depends on the align_corners flag")
         # both given: consistency check happens in the constructor (allclose) -- not traced
         # default spacing / direction
         with _unit_det():
